@@ -373,6 +373,19 @@ def ite(c, a, b):
         return a
     if c.op == "const" and isinstance(c.a[0], bool):
         return a if c.a[0] else b
+    # Boolean conditionals are connectives: `True if p else q` is `p or q`, `q if p else False` is `p and q`
+    def _bv(x):
+        return x.op in ("cmp", "bool") or (x.op == "un" and x.a[0] == "not") or (x.op == "const" and isinstance(x.a[0], bool))
+
+    if _bv(c) and _bv(a) and _bv(b):
+        if is_const(a, True):
+            return boolop("or", [c, b])
+        if is_const(b, False):
+            return boolop("and", [c, a])
+        if is_const(a, False):
+            return boolop("and", [unop("not", c), b])
+        if is_const(b, True):
+            return boolop("or", [unop("not", c), a])
     # `x if not c else y` is `y if c else x`; likewise for `is not` / `not in` / `!=` conditions
     while c.op == "un" and c.a[0] == "not":
         c = c.a[1]
